@@ -185,6 +185,13 @@ func Finish(e Evidence, vs []Viol, t0 time.Time) int {
 	if len(fresh) > shown {
 		fmt.Printf("  ... and %d more violations (replays written)\n", len(fresh)-shown)
 	}
+	// self-check: every part of a check leaves its fields in the coverage; a field
+	// that used to be there and is gone means a part did not run (unless a
+	// debugging filter narrowed this run on purpose)
+	if missing := missingCoverage(e); len(missing) > 0 {
+		fmt.Fprintf(os.Stderr, "HARNESS-WARNING: evidence of %s lacks the coverage fields %v that /verif/evidence_keys.json expects: a part of the check did not run\n", e.PropertyID, missing)
+		e.Coverage["missing_expected_fields"] = missing
+	}
 	if err := WriteEvidence(e); err != nil {
 		fmt.Fprintln(os.Stderr, "report: evidence:", err)
 		return 2
@@ -204,4 +211,29 @@ func RealNow() time.Time {
 		return time.Now()
 	}
 	return time.Unix(tv.Sec, tv.Usec*1000)
+}
+
+// missingCoverage compares the coverage fields with the committed expectation
+// (evidence_keys.json: property -> tier -> fields).
+func missingCoverage(e Evidence) []string {
+	for _, k := range []string{"VERIF_ONLY", "VERIF_SCEN", "VERIF_NO_SCHED", "VERIF_NO_HIST", "VERIF_NO_EVENTS", "VERIF_DEPTH", "VERIF_PATH", "VERIF_REPLAY"} {
+		if os.Getenv(k) != "" {
+			return nil
+		}
+	}
+	b, err := os.ReadFile(filepath.Join(Root, "evidence_keys.json"))
+	if err != nil {
+		return nil
+	}
+	var exp map[string][]string
+	if json.Unmarshal(b, &exp) != nil {
+		return nil
+	}
+	var missing []string
+	for _, k := range exp[e.PropertyID] {
+		if _, ok := e.Coverage[k]; !ok {
+			missing = append(missing, k)
+		}
+	}
+	return missing
 }
